@@ -154,7 +154,8 @@ def start_server(handlers, **kw):
 
 def run_injection(case):
     h = Handlers()
-    server, sock, g, result = start_server(h, context=server_ctx(), auth=False)
+    server, sock, g, result = start_server(h, context=server_ctx(),
+                                           auth=([b'PLAIN', b'LOGIN', b'CRAM-MD5'] if case.get('auth') else False))
     w = Wire(sock)
     out = []
     desc = repr(case)
@@ -164,6 +165,10 @@ def run_injection(case):
         for line in case['prefix']:
             w.send(line.encode() + b'\r\n')
             r = w.read_reply()
+            if line == 'AUTH CRAM-MD5' and r is not None and r[0] == '334':
+                # a non-plaintext mechanism completed in clear text, before the handshake
+                w.send(b64(b'plainuser 0123456789abcdef0123456789abcdef').encode() + b'\r\n')
+                r = w.read_reply()
             if r is None or not r[0].startswith('2'):
                 return [('C08:harness-prefix-refused', '%s: %r -> %r' % (desc, line, r))], False
         injected = ''.join(l + '\r\n' for l in case['injected']) + case.get('partial', '')
@@ -190,11 +195,31 @@ def run_injection(case):
             if line == 'DATA' and r[0] == '354':
                 wt.send(b'Subject: x\r\n\r\nbody\r\n.\r\n')
                 data_final.append(wt.read_reply())
+            if line.startswith('AUTH') and r[0] == '334':
+                # the answers to the challenges are sent over TLS only now
+                answers = [b64(b'\x00tlsuser\x00tlspass')] if line == 'AUTH PLAIN' else [b64(b'tlsuser'), b64(b'tlspass')]
+                for ans in answers:
+                    wt.send(ans.encode() + b'\r\n')
+                    r = wt.read_reply()
+                    if r is None:
+                        out.append(('C08:missing-reply-over-tls', '%s: no reply inside the AUTH exchange' % desc))
+                        return out, True
+                    if r[0] != '334':
+                        break
+                expect[-1] = (line, r)
         # judge the replies: the session must be in its just-greeted state
-        state = {'ehlo': False, 'mail': False, 'rcpt': False}
+        state = {'ehlo': False, 'mail': False, 'rcpt': False, 'authed': False}
         for line, (code, lines) in expect:
             verb = line.split(' ')[0].upper()
-            if verb == 'EHLO':
+            if verb == 'AUTH':
+                want = '235' if state['ehlo'] and not state['mail'] and not state['authed'] else '503'
+                if code != want:
+                    sig = 'C08:state-survived-handshake:authed' if (code == '503' and 'AUTH CRAM-MD5' in case['prefix']) else 'C08:reply-shifted'
+                    out.append((sig, '%s: %r over TLS ended with %s %r, expected %s' % (desc, line, code, lines, want)))
+                    break
+                if want == '235':
+                    state['authed'] = True
+            elif verb == 'EHLO':
                 if code != '250':
                     out.append(('C08:reply-shifted', '%s: EHLO over TLS answered %s %r' % (desc, code, lines[:2])))
                     break
@@ -204,7 +229,7 @@ def run_injection(case):
                 if lines[0] != b'Hello tls.example':
                     out.append(('C08:reply-shifted', '%s: EHLO over TLS answered %r' % (desc, lines[:2])))
                     break
-                state = {'ehlo': True, 'mail': False, 'rcpt': False}
+                state = {'ehlo': True, 'mail': False, 'rcpt': False, 'authed': state['authed']}
             elif verb == 'NOOP':
                 if code != '250' or lines != [b'2.0.0 Ok']:
                     out.append(('C08:reply-shifted', '%s: NOOP over TLS answered %s %r' % (desc, code, lines)))
@@ -250,6 +275,10 @@ def run_injection(case):
         for name, args, enc in h.trace[ncb_before:]:
             if name == 'TLSHANDSHAKE':
                 continue
+            if name == 'AUTH' and getattr(args[0], 'authcid', None) != 'tlsuser':
+                out.append(('C08:injected-command-interpreted', '%s: the application was shown credentials of %r; the client sent '
+                            "'tlsuser' over TLS" % (desc, getattr(args[0], 'authcid', None))))
+                break
             if any(isinstance(a, str) and 'inj' in a for a in args):
                 out.append(('C08:injected-command-interpreted', '%s: callback %s%r' % (desc, name, args)))
                 break
@@ -273,8 +302,10 @@ def run_injection(case):
 
 
 _INJ_LINES = ['EHLO inj.example', 'MAIL FROM:<inj@x.example>', 'RCPT TO:<inj@y.example>', 'NOOP', 'RSET', 'DATA', 'QUIT',
-              'AUTH PLAIN aW5qAGluagBpbmo=', 'NOOP inj']
+              'AUTH PLAIN aW5qAGluagBpbmo=', 'NOOP inj',
+              'AGluanVzZXIAaW5qcGFzcw==', 'aW5qdXNlcg==', '*']      # answers to SASL challenges (PLAIN, LOGIN) and a cancellation
 _TLS_CMDS = ['EHLO tls.example', 'NOOP', 'MAIL FROM:<tlssender@x.example>', 'RCPT TO:<tlsrcpt@y.example>', 'DATA']
+_TLS_AUTH_CMDS = ['AUTH PLAIN', 'AUTH LOGIN']
 
 
 @st.composite
@@ -287,8 +318,13 @@ def injection_case(draw):
         prefix.append('RCPT TO:<plainrcpt@y.example>')
     injected = draw(st.lists(st.sampled_from(_INJ_LINES), max_size=3))
     partial = draw(st.sampled_from(['', '', 'NOO', 'MAIL FROM:<inj@', 'E']))
-    cmds = draw(st.lists(st.sampled_from(_TLS_CMDS), min_size=1, max_size=6))
-    return {'family': 'injection', 'prefix': prefix, 'injected': injected, 'partial': partial, 'tls_commands': cmds}
+    auth = draw(st.booleans())
+    if auth and n == 0 and draw(st.booleans()):
+        prefix.append('AUTH CRAM-MD5')
+    cmds = draw(st.lists(st.sampled_from(_TLS_CMDS + (_TLS_AUTH_CMDS * 2 if auth else [])), min_size=1, max_size=6))
+    if auth and draw(st.booleans()):
+        cmds = ['EHLO tls.example', draw(st.sampled_from(_TLS_AUTH_CMDS))] + cmds[:3]
+    return {'family': 'injection', 'prefix': prefix, 'injected': injected, 'partial': partial, 'tls_commands': cmds, 'auth': auth}
 
 
 # =====================================================================================
@@ -608,6 +644,71 @@ def run_edge_auth(case):
     return out, True
 
 
+def run_edge_auth_before_tls(case):
+    """AUTH completed in clear text (CRAM-MD5), then STARTTLS: the encrypted session starts unauthenticated; the identity recorded
+    on the envelope is the one presented over TLS (or none)."""
+    from slimta.edge.smtp import SmtpEdge, SmtpValidators
+    queue = sm.CaptureQueue()
+    edge = SmtpEdge(None, queue, auth=[b'PLAIN', b'LOGIN', b'CRAM-MD5'], context=server_ctx(), hostname='edge', validator_class=SmtpValidators)
+    a, b = gsocket.socketpair()
+    g = gevent.spawn(edge.handle, a, ('10.0.0.9', 4321))
+    desc = repr(case)
+    out = []
+    try:
+        w = Wire(b)
+
+        def cmd(line, w_=None):
+            (w_ or w).send(line + b'\r\n')
+            return (w_ or w).read_reply()
+        w.read_reply()
+        cmd(b'EHLO plain.example')
+        r = cmd(b'AUTH CRAM-MD5')
+        if r is None or r[0] != '334':
+            return [('C08:harness-prefix-refused', '%s: %r' % (desc, r))], False
+        r = cmd(b64(b'plainuser 0123456789abcdef0123456789abcdef').encode())
+        if r is None or r[0] != '235':
+            return [('C08:harness-prefix-refused', '%s: %r' % (desc, r))], False
+        r = cmd(b'STARTTLS')
+        if r is None or r[0] != '220':
+            return [('C08:starttls-refused', '%s: %r' % (desc, r))], False
+        chan = client_ctx().wrap_socket(b, server_hostname='peer.example')
+        wt = Wire(chan)
+        cmd(b'EHLO tls.example', wt)
+        if case['reauth']:
+            r = cmd(b'AUTH PLAIN ' + base64.b64encode(b'\x00tlsuser\x00tlspass'), wt)
+            if r is None or r[0] != '235':
+                out.append(('C08:state-survived-handshake:authed', '%s: AUTH over TLS answered %r: the clear-text authentication '
+                            'still counts after the handshake' % (desc, r)))
+                return out, True
+        cmd(b'MAIL FROM:<s@x.example>', wt)
+        cmd(b'RCPT TO:<r@y.example>', wt)
+        cmd(b'DATA', wt)
+        wt.send(b'Subject: t\r\n\r\nbody\r\n.\r\n')
+        r = wt.read_reply()
+        cmd(b'QUIT', wt)
+        if r is None or r[0] != '250' or len(queue.envelopes) != 1:
+            return [('C08:edge-auth-delivery', '%s: %r' % (desc, r))], True
+        client = queue.envelopes[0].client
+        want = ('tlsuser', 'tlsuser') if case['reauth'] else None
+        got = tuple(client.get('auth')) if client.get('auth') else None
+        if got != want or client.get('protocol', '').endswith('A') != bool(want):
+            out.append(('C08:state-survived-handshake:edge-identity', '%s: envelope.client auth=%r protocol=%r; over TLS the client '
+                        'presented %r' % (desc, client.get('auth'), client.get('protocol'), want)))
+        chan.close()
+    except Exception as ex:
+        out.append(('C08:harness-exception:%s' % type(ex).__name__, '%s: %r' % (desc, ex)))
+    finally:
+        g.join(timeout=2)
+        if not g.dead:
+            g.kill(block=False)
+        for s_ in (a, b):
+            try:
+                s_.close()
+            except Exception:
+                pass
+    return out, True
+
+
 CREDS = [('user', 'pass', ''), ('user', 'pass', 'admin'), ('üser@exämple.com', 'pässwörd€', ''), ('u s e r', 'p q', 'zïd'),
          ('u' * 70, 's' * 70, '')]
 
@@ -655,6 +756,14 @@ def run_shard(ctx):
             f, nt = run_edge_auth(case)
             ctx.record(repr(case), nt, labels=['edge-auth'], case=case, failures=f)
 
+    for reauth in (True, False):
+        index += 1
+        if not ctx.mine(index):
+            continue
+        case = {'family': 'edge-auth-before-tls', 'reauth': reauth}
+        f, nt = run_edge_auth_before_tls(case)
+        ctx.record(repr(case), nt, labels=['edge-auth-before-tls'], case=case, failures=f)
+
     def inj(case):
         f, nt = run_injection(case)
         ctx.record(repr(case), nt, labels=['server-injection'], case=case, failures=f)
@@ -683,10 +792,15 @@ def replay(case):
             if len(creds) != 3 or not creds[0]:
                 return []
             return run_edge_auth(dict(case, creds=creds))[0]
+        if fam == 'edge-auth-before-tls':
+            return run_edge_auth_before_tls({'family': fam, 'reauth': bool(case.get('reauth'))})[0]
         if fam == 'injection':
             if not case.get('prefix') or case['prefix'][0] != 'EHLO plain.example':
                 return []
-            case = dict(case, tls_commands=[c for c in case.get('tls_commands', []) if c in _TLS_CMDS],
+            if 'AUTH CRAM-MD5' in case['prefix'] and (not case.get('auth') or len(case['prefix']) != 2):
+                return []
+            case = dict(case, tls_commands=[c for c in case.get('tls_commands', [])
+                                            if c in _TLS_CMDS or (case.get('auth') and c in _TLS_AUTH_CMDS)],
                         injected=[c for c in case.get('injected', []) if c in _INJ_LINES])
             if not case['tls_commands']:
                 return []
